@@ -72,7 +72,7 @@ MODEL_ARGS = {
     "summate_fourier": lambda: dict(spectrum_factor=Z(2), modes=Z((2, 2)), z_1=Z(2), z_2=Z(2), pos=Z((2, 3))),
     "calc_field_krige": lambda: dict(krig_mat=Z((2, 2)), krig_vecs=Z((2, 3)), cond=Z(2)),
     "calc_field_krige_and_variance": lambda: dict(krig_mat=Z((2, 2)), krig_vecs=Z((2, 3)), cond=Z(2)),
-    "unstructured": lambda: dict(f=Z((2, 3)), bin_edges=Z(4), pos=Z((1, 3))),
+    "unstructured": lambda: dict(f=Z((1, 3)), bin_edges=Z(4), pos=Z((1, 3))),
     "directional": lambda: dict(f=Z((1, 3)), bin_edges=Z(4), pos=Z((2, 3)), direction=Z((2, 2))),
     "structured": lambda: dict(f=Z((4, 2))),
     "ma_structured": lambda: dict(f=Z((4, 2)), mask=Z((4, 2), dtype=np.uint8)),
@@ -92,8 +92,8 @@ MODEL_ARGS_BIG = {
     "summate_fourier": lambda: dict(spectrum_factor=Z(3), modes=Z((2, 3)), z_1=Z(3), z_2=Z(3), pos=Z((2, 4))),
     "calc_field_krige": lambda: dict(krig_mat=Z((3, 3)), krig_vecs=Z((3, 4)), cond=Z(3)),
     "calc_field_krige_and_variance": lambda: dict(krig_mat=Z((2, 2)), krig_vecs=Z((2, 4)), cond=Z(2)),
-    "unstructured": lambda: dict(f=Z((1, 4)), bin_edges=Z(4), pos=Z((1, 4))),
-    "directional": lambda: dict(f=Z((1, 3)), bin_edges=Z(5), pos=Z((2, 3)), direction=Z((2, 2))),
+    "unstructured": lambda: dict(f=Z((2, 3)), bin_edges=Z(4), pos=Z((1, 3))),
+    "directional": lambda: dict(f=Z((1, 3)), bin_edges=Z(5), pos=Z((2, 3)), direction=Z((1, 2))),
     "structured": lambda: dict(f=Z((5, 2))),
     "ma_structured": lambda: dict(f=Z((5, 1)), mask=Z((5, 1), dtype=np.uint8)),
 }
@@ -730,7 +730,7 @@ def omp_jobs(sc, setup, rep, tier="quick", threads=3):
                     continue
                 sc.write(module + ".tla", mod)
                 cfgt = cfg % threads + "".join("INVARIANT %s\n" % i for i in emitmod.INVARIANTS)
-                jobs.append((("omp", fn, suffix), sc, module, cfgt, dict(workers=2 if not suffix else 3, timeout=1500)))
+                jobs.append((("omp", fn, suffix), sc, module, cfgt, dict(workers=4 if (suffix or fn == "directional") else 2, timeout=1500)))
                 rep.extra.setdefault("omp_models", {})[fn + suffix] = dict(reg.summary(), shapes=info["shapes"], threads=threads)
     return jobs, regs_all
 
@@ -1133,7 +1133,9 @@ def _run_c15(rep, rng, tier, seed, setup, sc):
     jobs = kernel_jobs(sc, kinds, cases, tier, projdef)
     ojobs, regs_all = omp_jobs(sc, setup, rep, tier)
     t0 = time.time()
-    results = tlc.run_many(jobs + ojobs, parallel=NTLC)
+    # the largest models first
+    ojobs.sort(key=lambda j: (j[0][1] != "directional", j[0][2] == ""))
+    results = tlc.run_many(ojobs + jobs, parallel=NTLC)
     print("TLC: %d jobs in %.1fs" % (len(jobs) + len(ojobs), time.time() - t0))
     for kind in kinds:
         r = results[("kernels", kind)]
